@@ -97,6 +97,35 @@ pub fn check_c07(r: &PortableRegistry) -> Vec<Violation> {
             v.push(viol(&format!("stream-roundtrip:{}", kind(r)), "two copies of encode(r) read back to back from an IoReader do not both decode to r".into(), r));
         }
     }
+    // every other way a caller can run the same codec: all must agree with decode(&mut &[u8])
+    {
+        use scale::{DecodeAll, DecodeLimit};
+        if PortableRegistry::decode_all(&mut &bytes[..]).ok().as_ref() != Some(r) {
+            v.push(viol(&format!("entry-point:decode_all:{}", kind(r)), "decode_all(encode(r)) is not Ok(r)".into(), r));
+        }
+        // an encoded registry nests at most 5 levels (entries > variants > fields > docs > string)
+        for limit in [16u32, 64, 255] {
+            match PortableRegistry::decode_with_depth_limit(limit, &mut &bytes[..]) {
+                Ok(d) if d == *r => {}
+                Ok(_) => v.push(viol(&format!("entry-point:decode_with_depth_limit:{}", kind(r)), format!("decode_with_depth_limit({limit}) gives another registry"), r)),
+                Err(e) => v.push(viol(&format!("entry-point:decode_with_depth_limit:{}", kind(r)), format!("decode_with_depth_limit({limit}) fails on encode(r): {e}"), r)),
+            }
+            if PortableRegistry::decode_all_with_depth_limit(limit, &mut &bytes[..]).ok().as_ref() != Some(r) {
+                v.push(viol(&format!("entry-point:decode_all_with_depth_limit:{}", kind(r)), format!("decode_all_with_depth_limit({limit}) is not Ok(r)"), r));
+            }
+        }
+        let mut sink: Vec<u8> = vec![0xAA];
+        r.encode_to(&mut sink);
+        if sink[0] != 0xAA || sink[1..] != bytes[..] {
+            v.push(viol("entry-point:encode_to", "encode_to(&mut Vec) appends something other than encode()".into(), r));
+        }
+        if r.using_encoded(|b| b.to_vec()) != bytes {
+            v.push(viol("entry-point:using_encoded", "using_encoded sees other bytes than encode()".into(), r));
+        }
+        if (&r).encode() != bytes || Box::new(r.clone()).encode() != bytes {
+            v.push(viol("entry-point:encode-by-ref", "encoding through a reference / Box differs".into(), r));
+        }
+    }
     if bytes.len() != r.encoded_size() {
         v.push(viol("encoded-size", format!("encoded_size() = {} but encode() wrote {}", r.encoded_size(), bytes.len()), r));
     }
